@@ -52,7 +52,7 @@ def gen(W):
         reqs = []
         for r in range(1 + W.draw(3)):
             u = sc["sendbuf_len"]
-            q = {"kind": W.weighted([4, 2, 1]),
+            q = {"kind": W.weighted([4, 2, 1, 1]),  # GET / POST / POST-chunked / malformed (server-generated 400)
                  "resp": W.choice([5, u + 3, 3 * u + 1, 8 * u], p0=0.3),
                  "body": W.choice([3, 40, 3 * sc["recv_bytes"] + 1 if sc["recv_bytes"] < 100 else 300]),
                  "sleep": W.choice([0, 0.0003, 0.005], p0=0.6),
@@ -94,6 +94,11 @@ def one_run(sc, placements, sub_id):
             hdrs = [("Host", "s")]
             rb = None
             method = "GET"
+            if q["kind"] == 3:
+                # a request the parser refuses before it has a path: answered by the error task, connection closed
+                stream += b"GET %s HTTP/1.1\r\nHost: s\r\nNo Colon Here\r\n\r\n" % path.encode()
+                exp.append({"path": None, "method": "GET", "body": None, "reqbody": b"", "status": 400})
+                break
             if q["kind"]:
                 method = "POST"
                 rb = token_body(cid + 20, r, q["body"])
@@ -102,7 +107,7 @@ def one_run(sc, placements, sub_id):
                     hdrs.append(("Expect", "100-continue"))
             scripts[path] = script
             stream += build_request(method, path, "1.1", hdrs, rb, chunked=(q["kind"] == 2))
-            exp.append({"path": path, "method": method, "body": body, "reqbody": rb or b""})
+            exp.append({"path": path, "method": method, "body": body, "reqbody": rb or b"", "status": 200})
         expected[cid] = exp
         streams[cid] = stream
     scripts["/probe"] = {"chunks": [b"probe-ok"], "cl": 8}
@@ -217,7 +222,7 @@ def one_run(sc, placements, sub_id):
         rs, probs = parse_stream(s.wire, [e["method"] for e in exp], s.closed)
         finals = [r for r in rs if not r.interim]
         return (not probs and len(finals) == len(exp)
-                and all(r.status == 200 and r.body == e["body"] for r, e in zip(finals, exp)))
+                and all(r.status == e["status"] and (e["body"] is None or r.body == e["body"]) for r, e in zip(finals, exp)))
 
     if vs is not None and victim_fault and fired:
         vc = snap.get("victim_chan")
@@ -244,11 +249,11 @@ def one_run(sc, placements, sub_id):
             continue
         rs, probs = parse_stream(s.wire, [e["method"] for e in exp], s.closed)
         finals = [r for r in rs if not r.interim]
-        if probs or len(finals) != len(exp) or any(r.status != 200 or r.body != e["body"] for r, e in zip(finals, exp)):
+        if probs or len(finals) != len(exp) or any(r.status != e["status"] or (e["body"] is not None and r.body != e["body"]) for r, e in zip(finals, exp)):
             v("bystander_disturbed", tag, "conn %d: %d/%d responses, parser problems %r, statuses %r, end=%s" % (
                 cid, len(finals), len(exp), probs, [r.status for r in finals], k.end_reason))
         calls = [c["path"] for c in common.calls_of(app, cid)]
-        if calls != [e["path"] for e in exp]:
+        if calls != [e["path"] for e in exp if e["path"] is not None]:
             v("bystander_disturbed", tag + ":calls", "conn %d: calls %r" % (cid, calls))
     lp = common.log_problems(sim, patterns=("Exception when servicing",))
     if lp:
@@ -354,7 +359,7 @@ def run_one(tapes, tier, scenario=None):
     res.interleaving = subs[-1]["inter"]
     res.nontrivial = any(s["fired"] for s in subs)
     res.sample = {"threads": sc["threads"], "lookahead": sc["lookahead"], "use_poll": sc["use_poll"],
-                  "victim": sc["victim"], "connections": [[("%s resp=%d" % (["GET", "POST", "POST-chunked"][q["kind"]], q["resp"])) for q in c["reqs"]] for c in sc["conns"]],
+                  "victim": sc["victim"], "connections": [[("%s resp=%d" % (["GET", "POST", "POST-chunked", "MALFORMED"][q["kind"]], q["resp"])) for q in c["reqs"]] for c in sc["conns"]],
                   "sched": sc["sched"], "trace": sc["trace"], "reference_calls": subs[0]["calls"],
                   "placements_run": len(subs), "placements_fired": sum(1 for s in subs if s["fired"]),
                   "example_placements": [t[1] for t in todo[:3]]}
